@@ -20,7 +20,7 @@ ASSUMPTIONS = [
     'validate_matrix is probed on the cube 0..L(i,j)+1 per cell (one above every limit), not on all integers',
 ]
 CHUNK = 40
-REQUIRED_FEATURES = {'*': ['pattern_empty_set', 'pattern_multi', 'excluded', 'open_ended', 'absent_node']}
+REQUIRED_FEATURES = {'*': ['pattern_empty_set', 'pattern_multi', 'excluded', 'open_ended', 'absent_node', 'history_filtered_first']}
 
 D_QUICK = ['1', '0..1', '1..2', '0,2', '2', '0..*', '1..*']
 TYPES = [(d, r) for d in D_QUICK for r in (False, True)]
@@ -226,6 +226,43 @@ def run_case(case):
                         break
             if bad:
                 viol('validate-differs', dict(examples=bad), excl, pat)
+
+        # history variants (E3 slice): a filtered iteration over ONE pattern is the first thing that touches the cold
+        # caches of these settings; everything enumerated / counted afterwards must still be complete
+        probe = [i for i, sz in enumerate(sizes) if sz > 0][:1] + [len(pats)-1]
+        for ip in sorted(set(probe)):
+            try:
+                gen.reset_agg_matrix_cache()
+                g3 = AggregateAssignmentMatrixGenerator(settings)
+                first = [tuple(tuple(int(v) for v in row) for row in mat) for mat, _ in g3.iter_matrices(existences[ip])]
+                g4 = AggregateAssignmentMatrixGenerator(settings)
+                cnt = g4.count_all_matrices(max_by_existence=False)
+                agg4 = g4.get_agg_matrix(cache=True)
+                it_all = {}
+                for mat, ex_ in AggregateAssignmentMatrixGenerator(settings).iter_matrices():
+                    it_all.setdefault(ex_, []).append(mat)
+            except Exception as e:
+                viol('exception-after-filtered-iteration', f'{type(e).__name__}: {e}', excl, [list(pats[ip][0]), list(pats[ip][1])])
+                break
+            res['evals'] += 1
+            feats['history_filtered_first'] = feats.get('history_filtered_first', 0) + 1
+            ref_ip = reference(case, excl, pats[ip][0], pats[ip][1])
+            bad_hist = None
+            if set(first) != ref_ip or len(first) != len(set(first)):
+                bad_hist = dict(step='filtered iteration', n=len(first), n_ref=len(ref_ip))
+            elif int(cnt) != sum(sizes):
+                bad_hist = dict(step='count after filtered iteration', got=int(cnt), expected=sum(sizes))
+            else:
+                for (se, te), existence, sz in zip(pats, existences, sizes):
+                    a4 = agg4.get(existence)
+                    if a4 is None or a4.shape[0] != sz or len(it_all.get(existence, [])) != sz:
+                        bad_hist = dict(step='enumeration after filtered iteration', pattern=[list(se), list(te)],
+                                        agg=None if a4 is None else int(a4.shape[0]), iterated=len(it_all.get(existence, [])),
+                                        expected=sz)
+                        break
+            if bad_hist:
+                viol('history-dependent-enumeration', bad_hist, excl, [list(pats[ip][0]), list(pats[ip][1])])
+                break
 
         for name, val, exp in (('count-cold-sum', count_cold_sum, sum(sizes)),
                                ('count-cold-max', count_cold_max, max(sizes)),
